@@ -16,6 +16,9 @@ PROPS = {
     "C15": P("pure", shards=(8, 16), floor=(10, 10)),
     "C16": P("pure", shards=(8, 16), floor=(10, 10)),
     "C17": P("pure", shards=(8, 16), floor=(10, 10)),
+    "C01": P("appmon", shards=(6, 16), floor=(10, 10)),
+    "C03": P("appmon", shards=(6, 16), floor=(10, 10)),
+    "C07": P("appmon", shards=(6, 16), floor=(10, 10)),
     "C06": P("appmon", shards=(6, 16), floor=(10, 10)),
     "C04": P("pure", shards=(8, 16), floor=(20, 20)),
 }
